@@ -136,6 +136,7 @@ Definition class_raw_xml (c : ccase) : bool :=
   let '(W, v, o) := c in
   explained W v o (forallb (fun u => match u with VDuration t => dq_safe t | VPeriod t => dq_safe t | _ => true end) (subs W v)).
 Definition class_init (c : ccase) : bool := let '(W, v, o) := c in explained W v o (g_init W v).
+Definition class_std (c : ccase) : bool := let '(W, v, o) := c in explained W v o (g_std W v).
 
 (* a failure that no clause explains although the guard is false cannot happen:
    guard = conjunction of the clauses; kept as a separate check for the evidence *)
